@@ -17,7 +17,9 @@ RULE = (
     "scheme in {http, https, foo, none} (9216 bases) x 40 modifier calls with argument values {None, '', plain, hostile text, non-ASCII}, plus "
     "seeded random arguments.  The result's raw vector (scheme, raw_user, raw_password, raw_host, explicit_port, raw_path, raw_query_string, "
     "raw_fragment) and raw_authority re-composition are compared with the frame model: target replaced, everything else byte-identical; the "
-    "target must decode to the argument and satisfy its RFC grammar.  The same vector is read from a cache-free twin of the result.  "
+    "target must decode to the argument and satisfy its RFC grammar.  The same vector is read from a cache-free twin of the result.  SHARED phase: "
+    "2-4 threads released by a barrier apply different authority modifiers / origin() to one freshly made URL object whose authority was never split "
+    "(encoded=True, derived, unpickled; switch interval 1 us); each result must equal the sequential result.  "
     "Signature = (modifier, argument class, base shape, outcome)."
 )
 ASSUMPTIONS = ["the target component is judged by decode-equality, read-back through the decoded accessor and RFC grammar - not by yarl's own encoding policy"]
@@ -39,6 +41,8 @@ def plan(tier, seed):
     thorough = tier == "thorough"
     n = 16
     jobs = [{"variant": "c" if s % 2 else "py", "part": "matrix", "shard": s, "nshards": n, "params": {"stride": 1 if thorough else 3, "random": 30 if thorough else 4}} for s in range(n)]
+    ns = 16 if thorough else 4
+    jobs += [{"variant": "c" if s % 2 else "py", "part": "shared", "shard": s, "nshards": ns, "params": {"trials": 40000 if thorough else 2500}} for s in range(ns)]
     return jobs
 
 
@@ -292,6 +296,9 @@ def run(ctx):
         ctx.notes["replay"] = "random-argument case: re-run with the recorded seed/shard to reproduce"
         ctx.ev(("replay",))
         return
+    if ctx.part == "shared":
+        run_shared(ctx)
+        return
     tg = TextGen(ctx.rng, surrogates=False)
     stride = ctx.params["stride"]
     i = 0
@@ -334,8 +341,78 @@ def run(ctx):
                 check(ctx, bt, u, bv, name, args, spec, ("encoded-base",), encoded_base=True)
 
 
+def run_shared(ctx):
+    """The frame model when the receiver is SHARED: several threads apply different modifiers to one freshly made URL object
+    (its authority never split before) at the same moment.  Each result must be what the same call returns sequentially."""
+    import sys
+    import threading
+    from yarl import URL
+
+    r = ctx.rng
+    old = sys.getswitchinterval()
+    sys.setswitchinterval(1e-6)
+    mods = [("with_port", (9,)), ("with_host", ("example.org",)), ("with_user", ("x",)), ("with_password", ("y",)), ("origin", ()), ("with_password", (None,)), ("with_port", (None,)), ("with_user", (None,))]
+    try:
+        for t in range(ctx.params["trials"]):
+            tag = f"{ctx.shard}x{t:x}"
+            hk, h = r.choice([("reg", f"h{tag}.example.com"), ("ipv6", f"[fe80::{t % 65535:x}]"), ("ipv6zone", f"[fe80::{t % 65535:x}%eth0]"), ("ipv4", f"10.{t % 250}.{(t >> 8) % 250}.1")])
+            uk, ui = r.choice([("none", ""), ("u", f"u{tag}@"), ("u:", f"u{tag}:@"), ("u:p", f"u{tag}:pw@"), (":p", f":p{tag}@")])
+            port = r.choice(["", ":8080", ":0"])
+            text = f"http://{ui}{h}{port}/p{tag}?q=1#f"
+            how = t % 4
+
+            def make():
+                if how == 0:
+                    return URL(text, encoded=True)
+                if how == 1:
+                    return URL(text).with_fragment("g")
+                if how == 2:
+                    return URL(text).__class__(text.replace("/p", "/P"), encoded=True).with_path(f"/p{tag}")
+                import pickle
+                return pickle.loads(pickle.dumps(URL(text)))
+
+            # sequential expectation from an equal but distinct set of objects (made, used and dropped before the threads run)
+            ref = make()
+            exp = [guarded(lambda m=m, a=a: str(getattr(ref, m)(*a))) for m, a in mods]
+            shared = make()
+            if shared is ref:
+                # the constructors cache: force a distinct, untouched object
+                shared = URL.__new__(URL)
+                shared.__setstate__(ref.__getstate__())
+            k = 2 + t % 3
+            picks = [r.randrange(len(mods)) for _ in range(k)]
+            got = [None] * k
+            bar = threading.Barrier(k)
+
+            def work(i):
+                m, a = mods[picks[i]]
+                bar.wait()
+                got[i] = guarded(lambda: str(getattr(shared, m)(*a)))
+
+            ths = [threading.Thread(target=work, args=(i,)) for i in range(k)]
+            for th in ths:
+                th.start()
+            for th in ths:
+                th.join()
+            ctx.count("shared_trials")
+            ctx.ev(("shared", hk, uk, port[:2], how, k))
+            for i in range(k):
+                ctx.count("shared_calls")
+                e = exp[picks[i]]
+                if _j(got[i]) != _j(e):
+                    ctx.fail("shared_receiver_frame_broken", {"base": text, "made": how, "m": mods[picks[i]][0], "args": list(mods[picks[i]][1]), "threads": k},
+                             f"{mods[picks[i]][0]}{mods[picks[i]][1]!r} on a shared fresh URL returned {got[i]!r}, sequentially {e!r}")
+                    break
+            if t % 997 == 0:
+                ctx.sample({"base": text, "m": "with_port", "args": [9], "threads": k})
+    finally:
+        sys.setswitchinterval(old)
+
+
 def finalize(merged, results, tier):
     unmet = []
+    if merged["counters"].get("shared_trials", 0) == 0:
+        unmet.append("the shared-receiver phase ran no trial")
     if merged["counters"].get("frame_ok", 0) == 0:
         unmet.append("frame model never matched (monitor not reached)")
     return unmet, {"exhaustive": True, "exhaustive_note": "the base-shape cross product (9216 bases) is enumerated completely; quick applies a rotating third of the modifier-call list to each base, thorough all of it"}
